@@ -480,13 +480,13 @@ func (s *stdioTransport) processMessage(ctx context.Context, line string, writer
 	var rawMessage json.RawMessage
 	if err := json.Unmarshal([]byte(line), &rawMessage); err != nil {
 		s.logger.Errorf("Invalid JSON received: %v", err)
-		return nil
+		return s.writeResponse(newJSONRPCErrorResponse(nil, ErrCodeParse, "Parse error", nil), writer)
 	}
 
 	msgType, err := parseJSONRPCMessageType(rawMessage)
 	if err != nil {
 		s.logger.Errorf("Error parsing message type: %v", err)
-		return nil
+		return s.writeResponse(newJSONRPCErrorResponse(nil, ErrCodeInvalidRequest, "Invalid Request", nil), writer)
 	}
 
 	sessionCtx := setSessionToContext(ctx, s.session)
